@@ -17,6 +17,16 @@ let words_of w v = to_words (wz w) (nat_of_int ((Zar.numbits v + w - 1) / w)) v
 let br w m = to_brepr (wz w) m
 let bv w r = bvalue (wz w) r
 let all_w = [ 16; 32; 64 ]
+let rec int_of_nat n = match n with O -> 0 | S k -> 1 + int_of_nat k
+let zeros k = List.init k (fun _ -> Zar.zero)
+let rec drop k l = if k <= 0 then l else match l with [] -> [] | _ :: t -> drop (k - 1) t
+
+(* shift counts / bit positions beyond anything storable (2^32 + k ... usize::MAX - k): the specifications are
+   constants there (C09_shr_beyond_len, C09_bitops_beyond_len, C09_testbit_beyond_len_neg), so no 2^n is formed *)
+let huge n = Zar.gt n (Zar.of_int (1 lsl 24))
+let shr_spec x n = if huge n then (if Zar.sign x < 0 then Zar.minus_one else Zar.zero) else Zar.shift_right x (Zar.to_int n)
+let shl_spec x n = if Zar.sign x = 0 then Zar.zero else Zar.shift_left x (Zar.to_int n)
+let testbit_spec x n = if huge n then Zar.sign x < 0 else Zar.testbit x (Zar.to_int n)
 
 let prim_ty ty = match ty with
   | "u8" -> PUnsigned (wz 8) | "u16" -> PUnsigned (wz 16) | "u32" -> PUnsigned (wz 32)
@@ -45,7 +55,7 @@ let lay_matches w r (i, l, c) =
    else Zar.leq l c && Zar.leq c (Zar.add (Zar.add l (Zar.div l (wz 4))) (wz 4)))
 
 (* ---------------------------------------------------------------- models of the big-valued operations *)
-type mres = MU of brepr | MI of Zar.t | MP of Zar.t result
+type mres = MU of brepr | MI of Zar.t | MP of Zar.t result | MS of (sign * brepr)
 
 let own_of sfx = match sfx with "_vr" | "_asr" -> VR | "_rv" -> RV | "_rr" -> RR | _ -> VV
 let swap_own o = match o with VR -> RV | RV -> VR | o -> o
@@ -83,7 +93,9 @@ let big_model w op args : (Zar.t * mres list) option =
   let o = own_of sfx in
   let ibin f tbl =
     let x = a 0 and y = a 1 in let s0, m0 = sm x and s1, m1 = sm y in
-    Some (zf f x y, [ MI (ibig_op ww o f s0 (br w m0) s1 (br w m1)); MI (tbl s0 m0 s1 m1) ]) in
+    let words_tbl = (match f with OpAnd -> ibig_bitand_words | OpOr -> ibig_bitor_words | OpXor -> ibig_bitxor_words) in
+    Some (zf f x y, [ MI (ibig_op ww o f s0 (br w m0) s1 (br w m1)); MI (tbl s0 m0 s1 m1);
+                      MS (words_tbl ww o s0 (br w m0) s1 (br w m1)) ]) in
   (* the hand-written dispatch and the one regenerated from bits.rs on this run *)
   let gen_dispatch f = match f, o with
     | OpAnd, VV -> gen_bitand_vv | OpAnd, VR -> gen_bitand_vr | OpAnd, RV -> gen_bitand_rv | OpAnd, RR -> gen_bitand_rr
@@ -106,35 +118,90 @@ let big_model w op args : (Zar.t * mres list) option =
   | _ ->
   let shift_ref = List.mem op [ "shl_r"; "shr_r"; "shl_rpr"; "shr_rpr"; "ushl_r"; "ushr_r"; "ushl_rpr"; "ushr_rpr" ] in
   match op with
-  | "not" -> let x = a 0 in let s, m = sm x in Some (Zar.lognot x, [ MI (ibig_not_gen s m) ])
-  | "not_r" -> let x = a 0 in let s, m = sm x in Some (Zar.lognot x, [ MI (ibig_not_ref_gen s m) ])
+  | "not" -> let x = a 0 in let s, m = sm x in Some (Zar.lognot x, [ MI (ibig_not_gen s m); MS (ibig_not_words ww s (br w m)) ])
+  | "not_r" -> let x = a 0 in let s, m = sm x in Some (Zar.lognot x, [ MI (ibig_not_ref_gen s m); MS (ibig_not_words ww s (br w m)) ])
   | "uand_p" | "uor_p" | "uxor_p" | "iand_pu" | "ior_pu" | "ixor_pu" | "iand_pi" | "ior_pi" | "ixor_pi" -> None
   | "shl" | "shl_r" | "shl_pr" | "shl_rpr" | "shl_assign" | "shl_assign_pr" ->
       let x = a 0 in let s, m = sm x in
-      Some (Zar.shift_left x (Zar.to_int (n 1)),
+      Some (shl_spec x (n 1),
             [ MI (ibig_shl_form ww shift_ref true s (br w m) (n 1)); MI (ibig_shl_form ww shift_ref false s (br w m) (n 1)) ])
   | "shr" | "shr_r" | "shr_pr" | "shr_rpr" | "shr_assign" | "shr_assign_pr" ->
       let x = a 0 in let s, m = sm x in
-      Some (Zar.shift_right x (Zar.to_int (n 1)),
+      (* the regenerated value-level table forms m mod 2^n: only for counts that can be materialised *)
+      Some (shr_spec x (n 1),
             [ MI (ibig_shr_form ww shift_ref s (br w m) (n 1));
-              MI ((if shift_ref then ibig_shr_ref_gen else ibig_shr_gen) s m (n 1)) ])
+              (match ibig_shr_words ww shift_ref s (br w m) (n 1) with Ok p -> MS p | _ -> MP OutOfFuel) ]
+            @ (if huge (n 1) then [] else [ MI ((if shift_ref then ibig_shr_ref_gen else ibig_shr_gen) s m (n 1)) ]))
   | "ushl" | "ushl_r" | "ushl_pr" | "ushl_rpr" | "ushl_assign" | "ushl_assign_pr" ->
       let x = a 0 in
-      Some (Zar.shift_left x (Zar.to_int (n 1)),
+      Some (shl_spec x (n 1),
             [ MU (ubig_shl_form ww shift_ref true (br w x) (n 1)); MU (ubig_shl_form ww shift_ref false (br w x) (n 1)) ])
   | "ushr" | "ushr_r" | "ushr_pr" | "ushr_rpr" | "ushr_assign" | "ushr_assign_pr" ->
-      let x = a 0 in Some (Zar.shift_right x (Zar.to_int (n 1)), [ MU (ubig_shr_form ww shift_ref (br w x) (n 1)) ])
+      let x = a 0 in Some (shr_spec x (n 1), [ MU (ubig_shr_form ww shift_ref (br w x) (n 1)) ])
   | "set_bit" -> Some (set_bit_spec (a 0) (n 1), [ MU (repr_set_bit ww (br w (a 0)) (n 1)) ])
-  | "clear_bit" -> Some (clear_bit_spec (a 0) (n 1), [ MU (repr_clear_bit ww (br w (a 0)) (n 1)) ])
-  | "clear_high_bits" -> Some (clear_high_bits_spec (a 0) (n 1), [ MU (repr_clear_high_bits ww (br w (a 0)) (n 1)) ])
+  | "clear_bit" -> Some ((if huge (n 1) then a 0 else clear_bit_spec (a 0) (n 1)), [ MU (repr_clear_bit ww (br w (a 0)) (n 1)) ])
+  | "clear_high_bits" ->
+      Some ((if huge (n 1) then a 0 else clear_high_bits_spec (a 0) (n 1)), [ MU (repr_clear_high_bits ww (br w (a 0)) (n 1)) ])
   | "next_pow2" -> Some (next_power_of_two_spec (a 0), [ MU (repr_next_power_of_two ww (br w (a 0))) ])
   | _ -> None
 
 (* does one as-is result reproduce the answered value (and, at the build's word size, the layout)? *)
 let mres_value w r = match r with
   | MU b -> Some (bv w b) | MI v -> Some v | MP (Ok v) -> Some v | MP _ -> None
+  | MS (s, b) -> Some (signed s (bv w b))
 let mres_repr w r = match r with
   | MU b -> Some b | MI v | MP (Ok v) -> Some (br w (Zar.abs v)) | MP _ -> None
+  | MS (_, b) -> Some b
+
+(* ---------------------------------------------------------------- the loop kernels REGENERATED from the source
+   (coq/gen/BitsKernelsGen.v) run on the raw words of heap operands: the answer must be reproduced by them too *)
+let gen_kernels w op args rest =
+  let ww = wz w in
+  let a i = z (List.nth args i) in
+  let n i = usz (List.nth args i) in
+  let large v = Zar.numbits v > 2 * w in
+  let ws v = words_of w v in
+  let value_is r v = rest = [ "ok"; hx v ] && Zar.equal (bv w r) (Zar.abs v) in
+  let answer = match rest with [ "ok"; t ] -> (try Some (z t) with _ -> None) | _ -> None in
+  let base, _ = split_suffix op in
+  match base, answer with
+  | ("uand" | "uor" | "uxor"), Some v when large (a 0) && large (a 1) ->
+      let k = (match base with "uand" -> bitand_large_gen | "uor" -> bitor_large_gen | _ -> bitxor_large_gen) in
+      value_is (k ww (ws (a 0)) (ws (a 1))) v && value_is (k ww (ws (a 1)) (ws (a 0))) v
+  | "and", Some v when Zar.sign (a 0) <> Zar.sign (a 1) && Zar.sign (a 0) <> 0 && Zar.sign (a 1) <> 0 ->
+      let p, m = if Zar.sign (a 0) > 0 then (a 0, Zar.neg (a 1)) else (a 1, Zar.neg (a 0)) in
+      let m1 = Zar.pred m in
+      if large p && large m1 then value_is (and_not_large_gen ww (ws p) (ws m1)) v else true
+  | _ ->
+  let is_in l = List.mem op l in
+  let shl_ops = [ "shl"; "shl_r"; "shl_pr"; "shl_rpr"; "shl_assign"; "shl_assign_pr"; "ushl"; "ushl_r"; "ushl_pr"; "ushl_rpr"; "ushl_assign"; "ushl_assign_pr" ] in
+  let shr_ops = [ "shr"; "shr_r"; "shr_pr"; "shr_rpr"; "shr_assign"; "shr_assign_pr"; "ushr"; "ushr_r"; "ushr_pr"; "ushr_rpr"; "ushr_assign"; "ushr_assign_pr" ] in
+  match answer with
+  | Some v when is_in shl_ops && large (Zar.abs (a 0)) && not (huge (n 1)) ->
+      let k = Zar.to_int (n 1) in
+      let (r, c) = shl_in_place_gen ww (ws (Zar.abs (a 0))) (wz (k mod w)) in
+      Zar.sign v = Zar.sign (a 0) && value_is (from_buffer ww (zeros (k / w) @ r @ [ c ])) v
+  | Some v when is_in shr_ops && large (Zar.abs (a 0)) && not (huge (n 1)) ->
+      let k = Zar.to_int (n 1) in
+      let m = Zar.abs (a 0) in
+      let words = ws m in
+      if k / w >= List.length words then true else begin
+        let (r, _) = shr_in_place_with_carry_gen ww (drop (k / w) words) (wz (k mod w)) Zar.zero in
+        let q = bv w (from_buffer ww r) in
+        if Zar.sign (a 0) > 0 then Zar.equal q v
+        else
+          let b = are_slice_low_bits_nonzero_gen ww words (nat_of_int k) in
+          Zar.equal v (Zar.sub (Zar.neg q) (if b then Zar.one else Zar.zero))
+      end
+  | _ ->
+  match op, rest with
+  | ("utz" | "tz"), [ "ok"; "some"; t ] when large (Zar.abs (a 0)) ->
+      int_of_nat (trailing_zeros_large_gen ww (ws (Zar.abs (a 0)))) = Zar.to_int (usz t)
+  | "uto", [ "ok"; "some"; t ] when large (a 0) -> int_of_nat (trailing_ones_large_gen ww (ws (a 0))) = Zar.to_int (usz t)
+  | "to", [ "ok"; "some"; t ] when Zar.sign (a 0) < 0 && large (Zar.abs (a 0)) && Zar.is_odd (a 0) ->
+      int_of_nat (trailing_zeros_large_shifted_by_one_gen ww (ws (Zar.abs (a 0)))) + 1 = Zar.to_int (usz t)
+  | "count_ones", [ "ok"; t ] when large (a 0) -> int_of_nat (count_ones_large_gen ww (ws (a 0))) = Zar.to_int (usz t)
+  | _ -> true
 
 let judge_big op args got =
   let lays, rest = split_layout got in
@@ -147,7 +214,7 @@ let judge_big op args got =
         match big_model w op args with
         | Some (_, rs) -> List.for_all (fun r -> match mres_value w r with Some v -> rest = [ "ok"; hx v ] | None -> false) rs
         | None -> false in
-      let same = ref (List.for_all value_ok all_w) in
+      let same = ref (List.for_all value_ok all_w && List.for_all (fun w -> gen_kernels w op args rest) all_w) in
       let verdict_lay = ref None in
       (match lays with
        | [ LBig (w, i, l, c) ] ->
@@ -180,6 +247,7 @@ let judge op args got =
   let n i = usz (List.nth args i) in
   let lays, rest = split_layout got in
   let toks want = "ok" :: want in
+  let fid_all f = fid_all (fun w -> f w && gen_kernels w op args rest) in
   match op with
   | "uand_p" | "uor_p" | "uxor_p" | "iand_pu" | "ior_pu" | "ixor_pu" | "iand_pi" | "ior_pi" | "ixor_pi" ->
       let x = a 1 and p = a 2 in
@@ -187,11 +255,11 @@ let judge op args got =
       expect ("ok " ^ hx (f x p)) got
   | "ubit" ->
       let x = a 0 in
-      expect ~extra:(fid_all (fun w -> rest = toks [ b2s (repr_bit (wz w) (br w x) (n 1)) ])) ("ok " ^ b2s (Zar.testbit x (Zar.to_int (n 1)))) got
+      expect ~extra:(fid_all (fun w -> rest = toks [ b2s (repr_bit (wz w) (br w x) (n 1)) ])) ("ok " ^ b2s (testbit_spec x (n 1))) got
   | "bit" ->
       let x = a 0 in let s, m = sm x in
       let extra = if Zar.sign x = 0 then "" else fid_all (fun w -> rest = toks [ b2s (ibig_bit (wz w) s (br w m) (n 1)) ]) in
-      expect ~extra ("ok " ^ b2s (Zar.testbit x (Zar.to_int (n 1)))) got
+      expect ~extra ("ok " ^ b2s (testbit_spec x (n 1))) got
   | "bit_len" | "ubit_len" ->
       let x = a 0 in
       expect ~extra:(fid_all (fun w -> rest = toks [ hx (repr_bit_len (wz w) (br w (Zar.abs x))) ])) ("ok " ^ hx (bit_len_spec x)) got
@@ -216,7 +284,7 @@ let judge op args got =
       expect ~extra:(fid_all (fun w -> rest = toks (split_ws (hopt (repr_count_zeros (wz w) (br w (a 0)))))))
         ("ok " ^ hopt (count_zeros_spec (a 0))) got
   | "split_bits" ->
-      let (lo, hi) = split_bits_spec (a 0) (n 1) in
+      let (lo, hi) = if huge (n 1) then (a 0, Zar.zero) else split_bits_spec (a 0) (n 1) in
       let want = "ok " ^ hx lo ^ " " ^ hx hi in
       let f w = let (alo, ahi) = repr_split_bits (wz w) (br w (a 0)) (n 1) in rest = toks [ hx (bv w alo); hx (bv w ahi) ] in
       (match lays with
